@@ -1225,14 +1225,20 @@ class DigitalWaveform(Generic[TDigitalState]):
         for waveform in waveforms:
             new_timing = new_timing._append_timing(waveform._timing)
 
-        self._increase_capacity(sum(waveform.sample_count for waveform in waveforms))
+        # Take the samples to append before this waveform changes: it may appear in its own list
+        # of sources, and its sample_count and buffer change below.
+        chunks = [
+            waveform.data.copy() if waveform is self else waveform.data for waveform in waveforms
+        ]
+
+        self._increase_capacity(sum(len(chunk) for chunk in chunks))
         self._set_timing(new_timing)
 
         offset = self._start_index + self._sample_count
-        for waveform in waveforms:
-            self._data[offset : offset + waveform.sample_count] = waveform.data
-            offset += waveform.sample_count
-            self._sample_count += waveform.sample_count
+        for waveform, chunk in zip(waveforms, chunks):
+            self._data[offset : offset + len(chunk)] = chunk
+            offset += len(chunk)
+            self._sample_count += len(chunk)
             self._extended_properties._merge(waveform._extended_properties)
 
     def _increase_capacity(self, amount: int) -> None:
